@@ -509,6 +509,7 @@ type minInst struct {
 	writerFail int
 	isolated   int  // 0 no; 1 FuncEvaluations only; 2 MajorIterations only; 3 Runtime only; 4 no limit at all: default settings on a convex quadratic
 	nilSet     bool // isolated == 4: pass settings == nil
+	lsKnob     int  // explicit Linesearcher parameters (0 = zero value)
 	nmVerts    bool // NelderMead: the initial simplex (initX first) and its values are supplied
 	cmaStop    int  // CmaEsChol.StopLogDet: 0 NaN (criterion off), 1 default, 2 +Inf (converged after the first generation)
 	costly     bool
@@ -521,7 +522,66 @@ type minInst struct {
 	primeN     int
 }
 
+// minCorpus: instances on which a repaired defect was first seen and that the
+// random generator meets too rarely for the quick tier to meet again (one run
+// in 150 replays one of them; tools/regress_fixes.sh relies on it).
+var minCorpus = []struct {
+	method, ls int
+	a          []float64 // upper triangle, row major
+	b, x0      []float64
+}{
+	// finding 25 (d6ea6ba): CG gives up far from the minimizer
+	{mCGPRP, 3, []float64{2, -1, 3}, []float64{0, -2}, []float64{-4, -4}},
+	{mCGPRP, 2, []float64{2, 1, 3}, []float64{-3, 1}, []float64{-4, 2}},
+	{mCGHS, 1, []float64{6, 1, 2}, []float64{-2, -3}, []float64{1, -4}},
+	// finding 10 (8a7acce): MoreThuente collapsed at rounding level
+	{mGD, 3, []float64{5, 2, 6}, []float64{-1, -3}, []float64{-1.5, -0.5}},
+	{mCGPRP, 0, []float64{6, -5, 6}, []float64{3, 2}, []float64{-2, 2.5}},
+}
+
+func corpusMinimize(k int) *minInst {
+	c := minCorpus[k]
+	dim := len(c.b)
+	in := &minInst{method: c.method, ls: c.ls, dim: dim, initX: append([]float64(nil), c.x0...), isolated: 4}
+	a := mat.NewSymDense(dim, nil)
+	idx := 0
+	for i := 0; i < dim; i++ {
+		for j := i; j < dim; j++ {
+			a.SetSym(i, j, c.a[idx])
+			idx++
+		}
+	}
+	b := c.b
+	o := &objective{dim: dim, qa: a, qb: b, name: fmt.Sprintf("quadratic(A=%v,b=%v)", a.RawSymmetric().Data, b)}
+	o.f = func(x []float64) float64 {
+		var s float64
+		for i := 0; i < dim; i++ {
+			var r float64
+			for j := 0; j < dim; j++ {
+				r += a.At(i, j) * x[j]
+			}
+			s += x[i] * (0.5*r - b[i])
+		}
+		return s
+	}
+	o.grad = func(g, x []float64) {
+		for i := 0; i < dim; i++ {
+			var r float64
+			for j := 0; j < dim; j++ {
+				r += a.At(i, j) * x[j]
+			}
+			g[i] = r - b[i]
+		}
+	}
+	o.hess = func(h *mat.SymDense, x []float64) { h.CopySym(a) }
+	in.obj = o
+	return in
+}
+
 func drawMinimize(t *simrt.Tape) *minInst {
+	if t.Choose(simrt.KWorkload, 150) == 149 {
+		return corpusMinimize(t.Choose(simrt.KWorkload, len(minCorpus)))
+	}
 	in := &minInst{}
 	in.method = t.Choose(simrt.KWorkload, nMethods)
 	in.dim = 1 + t.Choose(simrt.KWorkload, 5+scale)
@@ -531,6 +591,9 @@ func drawMinimize(t *simrt.Tape) *minInst {
 	}
 	if usesLS(in.method) {
 		in.ls = t.Choose(simrt.KWorkload, 4)
+		if in.ls != 0 {
+			in.lsKnob = t.Choose(simrt.KWorkload, 3)
+		}
 	}
 	defaults := usesLS(in.method) && t.Choose(simrt.KWorkload, 8) == 7
 	in.obj = drawObjective(t, in.dim, defaults)
@@ -686,6 +749,7 @@ func (in *minInst) describe(m map[string]interface{}) {
 	}
 	m["dim"] = in.dim
 	m["method_knobs"] = in.knob
+	m["linesearcher_knobs"] = in.lsKnob
 	if in.nilMethod {
 		m["method"] = "nil (default: " + methodNames[in.method] + ")"
 	}
@@ -754,14 +818,17 @@ func (in *minInst) build() *minRun {
 		r.log = newEvalLog(in.dim, 32768)
 		r.log.limit = defaultSettingsRunaway
 	}
+	// Linesearchers with their zero value (defaults) or with explicit,
+	// unusual but legal parameters (lsKnob): the advertised conditions are
+	// the ones configured, whatever their relation to the other fields.
 	var ls optimize.Linesearcher
 	switch in.ls {
 	case 1:
-		ls = &optimize.Backtracking{}
+		ls = &optimize.Backtracking{DecreaseFactor: []float64{0, 0.8, 0.3}[in.lsKnob], ContractionFactor: []float64{0, 0, 0.1}[in.lsKnob]}
 	case 2:
-		ls = &optimize.Bisection{}
+		ls = &optimize.Bisection{CurvatureFactor: []float64{0, 0.1, 0.5}[in.lsKnob]}
 	case 3:
-		ls = &optimize.MoreThuente{}
+		ls = &optimize.MoreThuente{DecreaseFactor: []float64{0, 0.3, 0.05}[in.lsKnob], CurvatureFactor: []float64{0, 0.5, 0.1}[in.lsKnob]}
 	}
 	// tuning knobs: correctness must not depend on one configuration
 	gst := []float64{0, 1e-4, 0, math.NaN()}[in.knob]
